@@ -198,6 +198,14 @@ struct dirent* readdir(DIR* d) {
   return e;
 }
 
+struct dirent64* readdir64(DIR* d) {
+  using F = struct dirent64* (*)(DIR*);
+  static F r = real<F>("readdir64");
+  struct dirent64* e = r(d);
+  if (e && ip().active && ip().clearDType) e->d_type = DT_UNKNOWN;
+  return e;
+}
+
 // ---------------------------------------------------------------- signals & reaping
 int kill(pid_t pid, int sig) {
   auto& i = ip();
